@@ -235,8 +235,12 @@ class MibCompiler(object):
 
                         parsedMibs[mibInfo.name] = fileInfo, mibInfo, mibTree
 
-                        if mibname in failedMibs:
-                            del failedMibs[mibname]
+                        # this module is available now: forget earlier
+                        # failures to fetch it (under either name)
+                        for failedName in (mibname, mibInfo.name):
+                            if failedName in failedMibs:
+                                del failedMibs[failedName]
+                                processed.pop(failedName, None)
 
                         mibsToParse.extend(mibInfo.imported)
 
